@@ -3,6 +3,7 @@ package checks
 import (
 	"errors"
 	"fmt"
+	"strings"
 
 	cose "github.com/veraison/go-cose"
 
@@ -23,7 +24,7 @@ func init() {
 		Level: "exploration",
 		Rule: "n = 0..6 signers with mixed algorithms (real keys), constructed and decoded messages: every subset of corrupted signatures (2^n) and every subset of emptied slots under the identity arrangement; " +
 			"every transposition, rotation, one missing, one surplus and a wrong key at each index; repeated keys; spy verifiers recording (index, content); spy signers failing at each position; " +
-			"zero-signature and empty-signature messages through encoder and decoder. Subsets and arrangements are enumerated completely for every n <= 6; distinct = (n, decoded?, bad-subset | arrangement | monitor).",
+			"zero-signature and empty-signature messages through encoder and decoder. Subsets and arrangements are enumerated completely for every n <= 6; for 18 sizes n = 7..100 every single position is corrupted, emptied, given a wrong key and a refusing spy, and positional spies must each be consulted exactly once; distinct = (n, decoded?, bad-subset | arrangement | monitor).",
 		Assume: []string{"signers are well-behaved here: they return an error or a non-empty signature (empty signatures from signers are C20's fault class)"},
 		Run:    runC11,
 	})
@@ -322,6 +323,121 @@ func runC11(c *Ctx) {
 			}
 			return a
 		}()), "external": ext})
+	})
+
+	// ---- many signers: every single position, no subsets (n beyond the complete enumeration) ----
+	type ljob struct{ n, rep int }
+	var ljobs []ljob
+	for _, n := range []int{7, 8, 9, 10, 11, 12, 13, 15, 16, 17, 23, 31, 32, 33, 47, 64, 65, 100} {
+		for rep := 0; rep < c.N(2, 12); rep++ {
+			ljobs = append(ljobs, ljob{n, rep})
+		}
+	}
+	mon.Parallel(c.Workers, len(ljobs), func(w, ji int) {
+		n, rep := ljobs[ji].n, ljobs[ji].rep
+		r := mon.NewRand(uint64(c.Seed)).Sub(uint64(57000 + ji))
+		ks := make([]*gen.AlgKey, n)
+		for j := range ks {
+			ks[j] = c.Keys.Keys[mon.Pick(r, 0, 3, 3)]
+		}
+		ext := gen.External(r)
+		payload := gen.Payload(r, false)
+		msg := &cose.SignMessage{Headers: cose.Headers{Protected: cose.ProtectedHeader{int64(3): "a/b"}, Unprotected: cose.UnprotectedHeader{}}, Payload: payload}
+		signers := make([]cose.Signer, n)
+		for j, k := range ks {
+			msg.Signatures = append(msg.Signatures, &cose.Signature{Headers: cose.Headers{Protected: cose.ProtectedHeader{int64(1): k.Alg, int64(91000 + j): int64(j)}, Unprotected: cose.UnprotectedHeader{}}})
+			signers[j] = k.Signer
+		}
+		in := map[string]any{"n": n, "rep": rep, "external": ext, "family": "many-signers"}
+		var err error
+		if guard(rec, "SignMessage.Sign", in, func() { err = msg.Sign(gen.Entropy, ext, signers...) }) {
+			return
+		}
+		rec.Eval(1)
+		rec.Event("SignMessage.Sign(many)")
+		if err != nil {
+			rec.Violate("sign", fmt.Sprintf("n=%d", n), "Sign with matching signers failed: "+err.Error(), in)
+			return
+		}
+		target := msg
+		if rep%2 == 1 {
+			wire, merr := msg.MarshalCBOR()
+			var d cose.SignMessage
+			if merr != nil || d.UnmarshalCBOR(wire) != nil {
+				rec.Violate("unmarshal", fmt.Sprintf("n=%d", n), "own encoding of a fully signed COSE_Sign refused", in)
+				return
+			}
+			target = &d
+		}
+		vs := make([]cose.Verifier, n)
+		vk := make([]VKey, n)
+		for j, k := range ks {
+			vs[j] = k.Verifier
+			vk[j] = VKey{int64(k.Alg), k.Pub}
+		}
+		verify := func(what string, m *cose.SignMessage, v []cose.Verifier, want bool) {
+			var e error
+			inn := map[string]any{"n": n, "rep": rep, "case": what, "family": "many-signers"}
+			if guard(rec, "SignMessage.Verify", inn, func() { e = m.Verify(ext, v...) }) {
+				return
+			}
+			rec.Eval(1)
+			rec.Event("SignMessage.Verify(many)")
+			if (e == nil) != want {
+				rec.Violate("verdict-differs", fmt.Sprintf("n=%d/%s", n, strings.SplitN(what, "=", 2)[0]), fmt.Sprintf("library: %v, expected acceptance: %v (%s)", e, want, what), inn)
+			}
+		}
+		if wire, merr := msg.MarshalCBOR(); merr == nil && !RefSignVerdict(wire, ext, vk) {
+			rec.HarnessError("C11: reference refuses a freshly signed many-signer message")
+			return
+		}
+		rec.Class(fmt.Sprintf("n=%d/many/decoded=%v", n, rep%2 == 1))
+		verify("all-good", target, vs, true)
+		for j := 0; j < n; j++ {
+			// corrupted signature at j
+			keep := target.Signatures[j].Signature
+			target.Signatures[j].Signature = flipBit(keep, r)
+			verify(fmt.Sprintf("corrupt-at=%d", j), target, vs, false)
+			target.Signatures[j].Signature = nil
+			verify(fmt.Sprintf("empty-at=%d", j), target, vs, false)
+			target.Signatures[j].Signature = keep
+			// a verifier of the right algorithm but another key at j
+			other, e := gen.NewAlgKey(ks[j].Alg, r.Sub(uint64(j)))
+			if e == nil {
+				arr := append([]cose.Verifier{}, vs...)
+				arr[j] = other.Verifier
+				verify(fmt.Sprintf("wrong-key-at=%d", j), target, arr, false)
+			}
+			// a refusing spy at j among accepting spies
+			spies := make([]cose.Verifier, n)
+			for q := range spies {
+				sv := &mon.SpyVerifier{Alg: ks[q].Alg, Index: q}
+				if q == j {
+					sv.Err = cose.ErrVerification
+				}
+				spies[q] = sv
+			}
+			verify(fmt.Sprintf("spy-refuses-at=%d", j), target, spies, false)
+		}
+		verify("all-good-again", target, vs, true)
+		verify("one-missing", target, vs[:n-1], false)
+		// positional spies: every index called exactly once with its own signature
+		var log []mon.VerifyCall
+		spies := make([]cose.Verifier, n)
+		for q := range spies {
+			spies[q] = &mon.SpyVerifier{Alg: ks[q].Alg, Index: q, Log: &log}
+		}
+		verify("all-spies-accept", target, spies, true)
+		seen := map[int]bool{}
+		for _, call := range log {
+			if seen[call.Index] || !eqBytes(call.Sig, target.Signatures[call.Index].Signature) {
+				rec.Violate("position-mixup", fmt.Sprintf("n=%d/many", n), fmt.Sprintf("verifier %d called twice or with another slot's signature", call.Index), in)
+			}
+			seen[call.Index] = true
+		}
+		if len(seen) != n {
+			rec.Violate("all-or-nothing", fmt.Sprintf("n=%d/many/calls", n), fmt.Sprintf("only %d of %d verifiers were consulted although Verify returned", len(seen), n), in)
+		}
 	})
 
 	// n = 0 and empty signatures through encoder / decoder
